@@ -87,8 +87,9 @@ func validatePermTree(root *ptree.PermNode, isAccount bool) (bool, error) {
 
 		checkResult := false
 		if nameCheck == 0 {
-			// current node is AK, signature should be validated before
-			checkResult = true
+			// current node is AK, signature should be validated before,
+			// which holds only for the name a signer uri ends with
+			checkResult = pnode.Signed
 		} else if nameCheck == 1 {
 			// current node is Account, so validation using ACLValidator
 			if pnode.ACL == nil {
